@@ -2,9 +2,11 @@
 from props import mmr_common as mc
 
 ID = "C11"
-GEN_TAGS = []
-PROOF_TARGETS = ["proofs/MmrProofs.vo", "proofs/MmrSmall.vo", "proofs/MmrUpdates.vo", "proofs/MmrBatch.vo", "proofs/MmrHistory.vo"]
+GEN_TAGS = ["MmrIndexGen"]
+PROOF_TARGETS = ["proofs/MmrProofs.vo", "proofs/MmrSmall.vo", "proofs/MmrUpdates.vo", "proofs/MmrBatch.vo", "proofs/MmrHistory.vo",
+                 "proofs/MmrIdxTie.vo"]
 PROPS_FILE = "props/C11.v"
+EXTRA_PROPS_FILES = ["props/C11b.v"]
 EXTRACT = "extract/ExtractMmr.vo"
 ORACLE = ("gen_mmr", "mmr.ml")
 HARNESS = "mmr"
@@ -14,7 +16,7 @@ RUN_TIMEOUT = {"quick": 600, "thorough": 3000}
 TRUSTED = [
     "Coq 8.16.1 kernel and its bytecode VM; no native_compute",
     "coq/lib/Word.v (count_ones, leading_zeros, wnot) as the meaning of the Rust bit intrinsics",
-    "hand-written model coq/model/Mmr.v + MmrIdxLocal.v of mmr_accumulator.rs, shared_basic.rs, shared_advanced.rs, util_types/shared.rs, tied to the code only by the correspondence check (nothing of C11 is machine-translated yet; gen/MmrIndexGen.v of C16 is not used)",
+    "hand-written model coq/model/Mmr.v of mmr_accumulator.rs, shared_basic.rs (calculate_new_peaks_*), util_types/shared.rs, tied to the code only by the correspondence check; its index functions (coq/model/MmrIdxLocal.v) are PROVED equal, on all u64 arguments including the panic outcome, to the functions of gen/MmrIndexGen.v (regenerated from shared_basic.rs / shared_advanced.rs on every run) and the loops of model/MmrIndex.v around them (C11_index_functions_regenerated in props/C11b.v, proofs/MmrIdxTie.v)",
     "extraction: ExtrOcamlBasic + ExtrOcamlZBigInt, Z.pow mapped to zarith's power function, OCaml 4.13.1, zarith 1.12",
     "correspondence harness harness/src/bin/mmr.rs (shadow forest naming digests by terms), oracle driver ocaml/mmr.ml, case generators tools/props/c11.py + mmr_common.py",
     "free hash: distinct terms are assumed to have distinct Tip5 evaluations and distinct 61-bit fingerprints",
